@@ -250,560 +250,578 @@ fn main() {
         let scale: u32 = std::env::var("C05_SCALE").ok().and_then(|s| s.parse().ok()).unwrap_or(100);
         let cnt = |q: u32, th: u32| -> u32 { (t.pick(q, th) as u64 * scale as u64 / 100).max(1) as u32 };
 
-        // -------- single operations -------------------------------------------------
-        if want("ff.ops.complete") {
-        p.sub(
-            "ff.ops.complete",
-            "boundary operand (class other than random) in the input tuple",
-            cnt(512, 10240),
-            16,
-            || fcase_strategy(nf),
-            |c| {
-                let cat = &catalogues()[c.field as usize % 5];
-                let en = &cat[c.op as usize % cat.len()];
-                let md = model_of(c.field);
-                let (x, boundary, labels) = inputs_for(&md, &en.prog, en.in_bits, &c.cls, c.seed);
-                if en.ecf && x.iter().take(en.prog.n_field).any(|v| ecf_known_input(&md, v, en.in_bits.is_some())) {
-                    return Ok(Verdict::trivial("excluded-known:enforce_canonical=false"));
-                }
-                let r = with_field!(c.field, complete(&en.prog, &x, c.seed));
-                match r {
-                    Ok(v) if v.classes.first().map(|s| s.as_str()) == Some("out-of-domain-input-skipped") => Ok(verdict(false, c.field, "skipped-out-of-domain", &[])),
-                    Ok(_) => Ok(verdict(boundary, c.field, en.label, &labels)),
-                    Err(f) => Err(f),
-                }
-            },
-        );
-        }
-        if want("ff.ops.s2") {
-        p.sub(
-            "ff.ops.s2",
-            "boundary operand and at least one fault rejected or accepted-correct",
-            cnt(176, 3520),
-            16,
-            || fcase_strategy(nf),
-            |c| {
-                let cat = &catalogues()[c.field as usize % 5];
-                let en = &cat[c.op as usize % cat.len()];
-                let md = model_of(c.field);
-                let (x, boundary, labels) = inputs_for(&md, &en.prog, en.in_bits, &c.cls, c.seed);
-                if en.ecf && x.iter().take(en.prog.n_field).any(|v| ecf_known_input(&md, v, en.in_bits.is_some())) {
-                    return Ok(Verdict::trivial("excluded-known:enforce_canonical=false"));
-                }
-                let exhaustive = !p.quick() && en.heavy;
-                let (st, _) = with_field!(c.field, s2(&en.prog, &x, c.seed, if exhaustive { 1 } else { 8 }, exhaustive, 6))?;
-                Ok(verdict(boundary && st.rejected + st.accepted_correct > 0, c.field, en.label, &labels).with(st.label()))
-            },
-        );
-        }
-
-        // -------- chains ------------------------------------------------------------
-        let chain_of = |c: &FCase| -> Prog {
-            let md = model_of(c.field);
-            let mut rng = SplitMix(c.seed ^ 0xc4a1);
-            if c.op % 3 == 0 {
-                identity_chain(&md, c.op as u64 / 3, &mut rng)
-            } else {
-                gen_chain(&md, &mut rng)
+        let lane_ops = || {
+            // -------- single operations -------------------------------------------------
+            if want("ff.ops.complete") {
+            p.sub(
+                "ff.ops.complete",
+                "boundary operand (class other than random) in the input tuple",
+                cnt(512, 10240),
+                16,
+                || fcase_strategy(nf),
+                |c| {
+                    let cat = &catalogues()[c.field as usize % 5];
+                    let en = &cat[c.op as usize % cat.len()];
+                    let md = model_of(c.field);
+                    let (x, boundary, labels) = inputs_for(&md, &en.prog, en.in_bits, &c.cls, c.seed);
+                    if en.ecf && x.iter().take(en.prog.n_field).any(|v| ecf_known_input(&md, v, en.in_bits.is_some())) {
+                        return Ok(Verdict::trivial("excluded-known:enforce_canonical=false"));
+                    }
+                    let r = with_field!(c.field, complete(&en.prog, &x, c.seed));
+                    match r {
+                        Ok(v) if v.classes.first().map(|s| s.as_str()) == Some("out-of-domain-input-skipped") => Ok(verdict(false, c.field, "skipped-out-of-domain", &[])),
+                        Ok(_) => Ok(verdict(boundary, c.field, en.label, &labels)),
+                        Err(f) => Err(f),
+                    }
+                },
+            );
             }
+            if want("ff.ops.s2") {
+            p.sub(
+                "ff.ops.s2",
+                "boundary operand and at least one fault rejected or accepted-correct",
+                cnt(176, 3520),
+                16,
+                || fcase_strategy(nf),
+                |c| {
+                    let cat = &catalogues()[c.field as usize % 5];
+                    let en = &cat[c.op as usize % cat.len()];
+                    let md = model_of(c.field);
+                    let (x, boundary, labels) = inputs_for(&md, &en.prog, en.in_bits, &c.cls, c.seed);
+                    if en.ecf && x.iter().take(en.prog.n_field).any(|v| ecf_known_input(&md, v, en.in_bits.is_some())) {
+                        return Ok(Verdict::trivial("excluded-known:enforce_canonical=false"));
+                    }
+                    let exhaustive = !p.quick() && en.heavy;
+                    let (st, _) = with_field!(c.field, s2(&en.prog, &x, c.seed, if exhaustive { 1 } else { 8 }, exhaustive, 6))?;
+                    Ok(verdict(boundary && st.rejected + st.accepted_correct > 0, c.field, en.label, &labels).with(st.label()))
+                },
+            );
+            }
+
+            // -------- decompositions: regressions (fixed defects) -------------------------------
+            // to_le_bytes(None) / to_le_bits with more bits than the field has used to panic on
+            // fields whose bit length is not a multiple of 8; to_le_chunks with a chunk size not
+            // dividing LOG2_BASE used to ignore nb_chunks (no bound on x).
+            let mut items: Vec<(u8, u8, u8)> = vec![];
+            for f in 0..5u8 {
+                for k in 0..5u8 {
+                    for v in 0..4u8 {
+                        items.push((f, k, v));
+                    }
+                }
+            }
+            if want("ff.decomp.regress") {
+            p.enumerate(
+                "ff.decomp.regress",
+                "field whose bit length is not a multiple of 8, more bits requested than the field has, or a chunk size not dividing LOG2_BASE with nb_chunks given",
+                items,
+                16,
+                false,
+                |&(f, k, v)| {
+                    let md = model_of(f);
+                    let b = md.base();
+                    let val: BigUint = match v {
+                        0 => BigUint::from(5u8),
+                        1 => &b + BigUint::one(),
+                        2 => &md.m - BigUint::one(),
+                        _ => (&md.m - BigUint::one()) >> 1,
+                    };
+                    let small = [5u32, 6, 31, (1 << 15) - 1][v as usize];
+                    let (prog, x, label, how): (Prog, Vec<BigUint>, &'static str, u8) = match k {
+                        0 => (Prog::term1(Term::ToBytes(0, None)), vec![val.clone()], "to_le_bytes(None)", 0),
+                        1 => (Prog::term1(Term::ToBits(0, Some(md.bits as usize + 3), true)), vec![val.clone()], "to_le_bits(NUM_BITS+3)", 0),
+                        2 => (Prog::term1(Term::ToChunks(0, 5, Some(3))), vec![BigUint::from(small)], "to_le_chunks(5 bits, Some(3))", 1),
+                        3 => (Prog::term1(Term::ToChunks(0, 5, Some(3))), vec![(&val % (BigUint::one() << 40)) + (BigUint::one() << 15)], "to_le_chunks(5 bits, Some(3), x >= 2^15)", 2),
+                        _ => (Prog::term1(Term::ToChunks(0, 5, None)), vec![val.clone()], "to_le_chunks(5 bits, None)", 1),
+                    };
+                    if how == 1 && ecf_known_input(&md, &x[0], k == 2) {
+                        return Ok(Verdict::trivial("excluded-known:enforce_canonical=false"));
+                    }
+                    fn rb<Fd: EmField>(prog: &Prog, x: &[BigUint], how: u8) -> CaseResult {
+                        let op = FOp::<Fd>::new(prog.clone());
+                        let md = model::<Fd>();
+                        match how {
+                            0 => {
+                                if Fd::VIA_STD {
+                                    check_complete_and_s1(&op, x, 11)
+                                } else {
+                                    xcheck_complete_and_s1(&op, x, 11)
+                                }
+                            }
+                            1 => xcheck_complete_readback(&op, x),
+                            _ => xcheck_must_reject(&op, x, 3, 3, md.lb, &md.m),
+                        }
+                    }
+                    let r = with_field!(f, rb(&prog, &x, how));
+                    match r {
+                        Ok(_) => Ok(Verdict::nontrivial(format!("{}:{}", field_name(f), label))),
+                        Err(fl) => Err(Failure::new(format!("regression:{}:{}", label, fl.signature), format!("[{}] {}", field_name(f), fl.detail.chars().take(700).collect::<String>()))),
+                    }
+                },
+            );
+            }
+
+            // -------- known finding: the enforce_canonical = false path (own sub-check) ----------
+            // `assigned_to_le_bits(.., enforce_canonical = false)` (and `assigned_to_le_chunks` with a
+            // chunk size not dividing LOG2_BASE, which uses it) never normalises `x + 1`: the
+            // honest witness is unsatisfiable when limb 0 of the stored value is all ones
+            // (x = 0 mod 2^LOG2_BASE) or x is the un-normalised result of lazy operations.
+            // All signatures share the prefix `field_chip.enforce_canonical=false:incomplete:`.
+            let mut items: Vec<(u8, u8, u8)> = vec![];
+            for f in 0..5u8 {
+                for k in 0..5u8 {
+                    for v in 0..4u8 {
+                        items.push((f, k, v));
+                    }
+                }
+            }
+            if want("ff.decomp.known") {
+            p.enumerate(
+                "ff.decomp.known",
+                "stored limb 0 all ones (x = 0 mod B) or un-normalised input on the enforce_canonical = false path",
+                items,
+                16,
+                false,
+                |&(f, k, v)| {
+                    let md = model_of(f);
+                    let b = md.base();
+                    let val: BigUint = match v {
+                        0 => BigUint::from(5u8), // control
+                        1 => b.clone(),
+                        2 => (&b * BigUint::from(3u8) + (&b << md.lb)) % &md.m,
+                        _ => (&md.m - BigUint::one()) >> 1,
+                    };
+                    let lazy = Prog { n_field: 1, n_bits: 0, n_bytes: 0, steps: vec![Step::Add(0, 0)], term: Term::ToBits(1, None, false) };
+                    // with a bit bound, zero (stored as m-1, decomposed as m) is affected as well
+                    let val = if k >= 3 { if v == 0 { BigUint::from(5u8) } else { BigUint::zero() } } else { val };
+                    let (prog, label, why): (Prog, &'static str, &'static str) = match k {
+                        0 => (Prog::term1(Term::ToBits(0, None, false)), "to_le_bits(enforce_canonical=false)", "to_le_bits:limb0-carry"),
+                        1 => (lazy, "to_le_bits(lazy x+x, enforce_canonical=false)", "to_le_bits:unnormalised-input"),
+                        2 => (Prog::term1(Term::ToChunks(0, 5, None)), "to_le_chunks(5 bits, None)", "to_le_chunks:limb0-carry"),
+                        3 => (Prog::term1(Term::ToChunks(0, 5, Some(3))), "to_le_chunks(5 bits, Some(3))", "to_le_chunks:zero-with-bit-bound"),
+                        _ => (Prog::term1(Term::ToBits(0, Some(9), false)), "to_le_bits(Some(9), enforce_canonical=false)", "to_le_bits:zero-with-bit-bound"),
+                    };
+                    fn rb<Fd: EmField>(prog: &Prog, x: &[BigUint]) -> CaseResult {
+                        xcheck_complete_readback(&FOp::<Fd>::new(prog.clone()), x)
+                    }
+                    let r = with_field!(f, rb(&prog, &[val.clone()]));
+                    let nt = v == 1 || v == 2 || k == 1 || (k >= 3 && v >= 1);
+                    match r {
+                        Ok(_) => Ok(Verdict::of(nt, format!("{}:{}", field_name(f), label))),
+                        Err(fl) => {
+                            let expected = ((k == 0 || k == 2) && (v == 1 || v == 2)) || (k == 1 && v >= 1) || (k >= 3 && v >= 1);
+                            let sig = if fl.signature.contains(":incomplete:reject") && expected { format!("field_chip.enforce_canonical=false:incomplete:{why}") } else { fl.signature.clone() };
+                            Err(Failure::new(sig, format!("[{} {}] {}", field_name(f), label, fl.detail.chars().take(600).collect::<String>())))
+                        }
+                    }
+                },
+            );
+            }
+
         };
-        if want("ff.chains.complete") {
-        p.sub(
-            "ff.chains.complete",
-            "chain of 2-6 operations in which an un-normalised register is consumed, or boundary operand",
-            cnt(320, 6400),
-            16,
-            || fcase_strategy(nf),
-            |c| {
-                let prog = chain_of(c);
+        let lane_chains = || {
+            // -------- chains ------------------------------------------------------------
+            let chain_of = |c: &FCase| -> Prog {
                 let md = model_of(c.field);
-                let (x, boundary, labels) = inputs_for(&md, &prog, None, &c.cls, c.seed);
-                let r = with_field!(c.field, complete(&prog, &x, c.seed));
-                let kind = if c.op % 3 == 0 { "identity-chain" } else { "random-chain" };
-                match r {
-                    Ok(v) if v.classes.first().map(|s| s.as_str()) == Some("out-of-domain-input-skipped") => Ok(verdict(false, c.field, "skipped-out-of-domain", &[])),
-                    Ok(_) => Ok(verdict(boundary || prog.has_lazy_use(), c.field, kind, &labels).with(if prog.has_lazy_use() { "lazy-register-consumed" } else { "no-lazy-use" })),
-                    Err(f) => Err(f),
-                }
-            },
-        );
-        }
-        if want("ff.chains.s2") {
-        p.sub(
-            "ff.chains.s2",
-            "chain with an un-normalised register or boundary operand, and a fault rejected or accepted-correct",
-            cnt(128, 2560),
-            16,
-            || fcase_strategy(nf),
-            |c| {
-                let prog = chain_of(c);
-                let md = model_of(c.field);
-                let (x, boundary, labels) = inputs_for(&md, &prog, None, &c.cls, c.seed);
-                let (st, lab) = with_field!(c.field, s2(&prog, &x, c.seed, 6, false, 8))?;
-                let mut v = verdict((boundary || prog.has_lazy_use()) && st.rejected + st.accepted_correct > 0, c.field, "chain", &labels).with(st.label());
-                for l in lab {
-                    v = v.with(l);
-                }
-                Ok(v)
-            },
-        );
-        }
-
-        // -------- violating inputs --------------------------------------------------
-        if want("ff.unsat") {
-        p.sub(
-            "ff.unsat",
-            "input outside the documented domain and the verdict comes from the constraint system (reject)",
-            cnt(160, 3200),
-            16,
-            || fcase_strategy(nf),
-            |c| {
-                let md = model_of(c.field);
-                let mut rng = SplitMix(c.seed);
-                let h = |v: &BigUint| hex(v);
-                let (a, la) = operand(&md, c.cls[0], &mut rng, None);
-                let (mut b, _) = operand(&md, c.cls[1], &mut rng, Some(&a));
-                if b == a {
-                    b = (&a + BigUint::one()) % &md.m;
-                }
-                let bits = md.bits as usize;
-                // a value that does not fit k bits
-                let k = 1 + rng.below(bits as u64 - 1) as usize;
-                let big = {
-                    let lo = BigUint::one() << k;
-                    let v = if a >= lo { a.clone() } else { (&lo + &a) % &md.m };
-                    if v >= lo { v } else { lo }
-                };
-                let kb = 1 + rng.below(bits as u64 / 8 - 1) as usize;
-                let bigb = {
-                    let lo = BigUint::one() << (8 * kb);
-                    let v = if a >= lo { a.clone() } else { (&lo + &a) % &md.m };
-                    if v >= lo { v } else { lo }
-                };
-                let lazy_eq = |t: Term| Prog { n_field: 2, n_bits: 0, n_bytes: 0, steps: vec![Step::Add(0, 1), Step::Sub(2, 1)], term: t };
-                let (prog, x, label): (Prog, Vec<BigUint>, &'static str) = match c.op % 13 {
-                    0 => (Prog::term2(Term::AssertEq(0, 1)), vec![a.clone(), b.clone()], "assert_equal(x!=y)"),
-                    1 => (Prog::term2(Term::AssertNe(0, 1)), vec![a.clone(), a.clone()], "assert_not_equal(x==x)"),
-                    2 => (Prog::term1(Term::AssertEqFixed(0, h(&b))), vec![a.clone()], "assert_equal_to_fixed(x!=c)"),
-                    3 => (Prog::term1(Term::AssertNeFixed(0, h(&a))), vec![a.clone()], "assert_not_equal_to_fixed(x==c)"),
-                    4 => (Prog::term1(Term::AssertNonZero(0)), vec![BigUint::zero()], "assert_non_zero(0)"),
-                    5 => (Prog::binary(Step::Div(0, 1)), vec![a.clone(), BigUint::zero()], "div(x,0)"),
-                    6 => (Prog::unary(Step::Inv(0)), vec![BigUint::zero()], "inv(0)"),
-                    7 => (Prog::term1(Term::ToBits(0, Some(k), true)), vec![big.clone()], "to_le_bits(too-few-bits)"),
-                    8 => (Prog::term1(Term::ToBytes(0, Some(kb))), vec![bigb.clone()], "to_le_bytes(too-few-bytes)"),
-                    // representation independence of the assertions: equal residues reached lazily
-                    9 => (lazy_eq(Term::AssertNe(3, 0)), vec![a.clone(), b.clone()], "assert_not_equal(lazy x+y-y, x)"),
-                    10 => (
-                        Prog { n_field: 1, n_bits: 0, n_bytes: 0, steps: vec![Step::Neg(0), Step::Add(0, 1)], term: Term::AssertNonZero(2) },
-                        vec![a.clone()],
-                        "assert_non_zero(lazy x + -x)",
-                    ),
-                    11 => (
-                        Prog { n_field: 2, n_bits: 0, n_bytes: 0, steps: vec![Step::Sub(0, 1), Step::Sub(1, 0), Step::Add(2, 3), Step::Div(0, 4)], term: Term::Expose(5) },
-                        vec![a.clone(), b.clone()],
-                        "div(x, lazy 0)",
-                    ),
-                    _ => (lazy_eq(Term::AssertEq(3, 1)), vec![a.clone(), b.clone()], "assert_equal(lazy x, y!=x)"),
-                };
-                let _ = la;
-                let v = with_field!(c.field, must_reject(&prog, &x, c.seed, 3))?;
-                Ok(Verdict::of(v.nontrivial, format!("{}:{}", field_name(c.field), label)).with(v.classes[0].clone()))
-            },
-        );
-        }
-
-        // -------- representation independence ------------------------------------------
-        // A register that is the *output of a normalisation* (from_le_bits, or a
-        // product of constants that crosses the lazy limit) is given its second
-        // well-formed representation (z + m) by a consistent fault plan on the
-        // normalisation region; everything computed from it afterwards must decode
-        // to the same residue-level answers.
-        if want("ff.repr") {
-        p.sub(
-            "ff.repr",
-            "residue inside the two-representation window and the consistent +m plan on a normalisation output was accepted with correct public values (or rejected at the window boundary)",
-            cnt(240, 4800),
-            16,
-            || fcase_strategy(nf),
-            |c| {
-                let md = model_of(c.field);
-                let mut rng = SplitMix(c.seed);
-                let h = |v: &BigUint| hex(&(v % &md.m));
-                let w = md.two_rep_max();
-                // residue r of the normalised register
-                let (r, rl): (BigUint, &'static str) = match c.cls[0] % 8 {
-                    0 => (BigUint::one(), "r=1"),
-                    1 => (BigUint::from(2u8), "r=2"),
-                    2 => (w.clone(), "r=window-max"),
-                    3 => (&w + BigUint::one(), "r=window-max+1"),
-                    4 => (&w - BigUint::one(), "r=window-max-1"),
-                    5 => (BigUint::zero(), "r=0"),
-                    _ => (BigUint::one() + BigUint::from_bytes_le(&rng.bytes(64)) % &w, "r=random-in-window"),
-                };
-                let mut r = r % &md.m;
-                let mut rl = rl;
-                // how the register is produced: from_le_bits, or a product of two
-                // constants whose second factor crosses the lazy limit (only residues
-                // that are multiples of 2^(lb-3))
-                let span = &w >> (md.lb - 3);
-                // a third way: the register is an assigned *input*, re-represented by a
-                // limb transplant (see ops_foreign)
-                let via_input = c.op % 3 == 1;
-                let via_bits = !via_input && (c.op % 3 != 0 || span.is_zero());
-                if !via_bits && !via_input {
-                    r = (BigUint::one() + BigUint::from_bytes_le(&rng.bytes(64)) % &span) << (md.lb - 3);
-                    rl = "r=random-in-window";
-                }
-                let (mut prog, mut x, reg): (Prog, Vec<BigUint>, usize) = if via_input {
-                    (Prog { n_field: 2, n_bits: 1, n_bytes: 0, steps: vec![], term: Term::Expose(1) }, vec![r.clone(), BigUint::from(rng.below(2))], 1)
-                } else if via_bits {
-                    let len = (r.bits().max(1) as usize + rng.below(9) as usize).min(md.bits as usize);
-                    let bits: Vec<BigUint> = (0..len as u64).map(|i| BigUint::from(r.bit(i) as u8)).collect();
-                    (Prog { n_field: 1, n_bits: len, n_bytes: 0, steps: vec![Step::FromBits(0, len)], term: Term::Expose(1) }, bits, 1)
+                let mut rng = SplitMix(c.seed ^ 0xc4a1);
+                if c.op % 3 == 0 {
+                    identity_chain(&md, c.op as u64 / 3, &mut rng)
                 } else {
-                    // x * 2^(lb/2-2) * 2^(lb-3-(lb/2-2)) = x * 2^(lb-3): the second product normalises
-                    let k1 = BigUint::one() << (md.lb / 2 - 2);
-                    let k2 = BigUint::one() << (md.lb - 3 - (md.lb / 2 - 2));
-                    let xin = &r >> (md.lb - 3);
-                    (Prog { n_field: 2, n_bits: 0, n_bytes: 0, steps: vec![Step::MulC(1, h(&k1)), Step::MulC(2, h(&k2))], term: Term::Expose(3) }, vec![xin], 3)
-                };
-                // the other field input (register 0): equal to r, different, or related
-                let other = match c.cls[1] % 4 {
-                    0 => r.clone(),
-                    1 => (&r + BigUint::one()) % &md.m,
-                    2 => (&md.m - &r) % &md.m,
-                    _ => BigUint::from_bytes_le(&rng.bytes(64)) % &md.m,
-                };
-                x.insert(0, other.clone());
-                let (steps_extra, term, tl): (Vec<Step>, Term, &'static str) = match c.cls[2] % 12 {
-                    0 => (vec![], Term::Expose(reg), "expose"),
-                    1 => (vec![], Term::IsZero(reg), "is_zero"),
-                    2 => (vec![], Term::IsEq(reg, 0), "is_equal"),
-                    3 => (vec![], Term::IsEq(0, reg), "is_equal"),
-                    4 => (vec![], Term::IsEqFixed(reg, h(&r)), "is_equal_to_fixed"),
-                    5 => (vec![], Term::ToBits(reg, None, true), "to_le_bits"),
-                    6 => (vec![], Term::ToBytes(reg, None), "to_le_bytes"),
-                    7 => (vec![Step::Mul(reg, 0)], Term::Expose(reg + 1), "mul"),
-                    8 => (vec![Step::Add(reg, 0), Step::Neg(reg + 1)], Term::Expose(reg + 2), "add-neg"),
-                    9 => (vec![Step::Select(0, reg, 0)], Term::Expose(reg + 1), "select"),
-                    10 => (vec![], Term::AssertNe(reg, 0), "assert_not_equal"),
-                    _ => (vec![Step::Inv0(reg)], Term::Expose(reg + 1), "inv0"),
-                };
-                if tl == "select" && prog.n_bits == 0 {
-                    return Ok(Verdict::trivial("skipped"));
+                    gen_chain(&md, &mut rng)
                 }
-                prog.steps.extend(steps_extra);
-                prog.term = term;
-                fn run<Fd: EmField>(prog: &Prog, x: &[BigUint], seed: u64) -> Result<(XStats, Vec<String>), Failure> {
-                    let op = FOp::<Fd>::new(prog.clone());
-                    let Some(inst) = op.xreference(x) else { return Ok((XStats::default(), vec!["out-of-domain".into()])) };
-                    let honest = honest_readback(&op, x, &inst)?;
-                    let regs = find_regions::<Fd>(&honest.log);
-                    let mut st = XStats::default();
-                    let mut labels = vec![];
-                    let mut rng = SplitMix(seed);
-                    for (i, reg) in regs.iter().enumerate() {
-                        for t in [1i64, 2] {
-                            if let Some(plan) = plan_norm_plus_m::<Fd>(reg, &honest.values, t) {
+            };
+            if want("ff.chains.complete") {
+            p.sub(
+                "ff.chains.complete",
+                "chain of 2-6 operations in which an un-normalised register is consumed, or boundary operand",
+                cnt(320, 6400),
+                16,
+                || fcase_strategy(nf),
+                |c| {
+                    let prog = chain_of(c);
+                    let md = model_of(c.field);
+                    let (x, boundary, labels) = inputs_for(&md, &prog, None, &c.cls, c.seed);
+                    let r = with_field!(c.field, complete(&prog, &x, c.seed));
+                    let kind = if c.op % 3 == 0 { "identity-chain" } else { "random-chain" };
+                    match r {
+                        Ok(v) if v.classes.first().map(|s| s.as_str()) == Some("out-of-domain-input-skipped") => Ok(verdict(false, c.field, "skipped-out-of-domain", &[])),
+                        Ok(_) => Ok(verdict(boundary || prog.has_lazy_use(), c.field, kind, &labels).with(if prog.has_lazy_use() { "lazy-register-consumed" } else { "no-lazy-use" })),
+                        Err(f) => Err(f),
+                    }
+                },
+            );
+            }
+            if want("ff.chains.s2") {
+            p.sub(
+                "ff.chains.s2",
+                "chain with an un-normalised register or boundary operand, and a fault rejected or accepted-correct",
+                cnt(128, 2560),
+                16,
+                || fcase_strategy(nf),
+                |c| {
+                    let prog = chain_of(c);
+                    let md = model_of(c.field);
+                    let (x, boundary, labels) = inputs_for(&md, &prog, None, &c.cls, c.seed);
+                    let (st, lab) = with_field!(c.field, s2(&prog, &x, c.seed, 6, false, 8))?;
+                    let mut v = verdict((boundary || prog.has_lazy_use()) && st.rejected + st.accepted_correct > 0, c.field, "chain", &labels).with(st.label());
+                    for l in lab {
+                        v = v.with(l);
+                    }
+                    Ok(v)
+                },
+            );
+            }
+
+            // -------- violating inputs --------------------------------------------------
+            if want("ff.unsat") {
+            p.sub(
+                "ff.unsat",
+                "input outside the documented domain and the verdict comes from the constraint system (reject)",
+                cnt(160, 3200),
+                16,
+                || fcase_strategy(nf),
+                |c| {
+                    let md = model_of(c.field);
+                    let mut rng = SplitMix(c.seed);
+                    let h = |v: &BigUint| hex(v);
+                    let (a, la) = operand(&md, c.cls[0], &mut rng, None);
+                    let (mut b, _) = operand(&md, c.cls[1], &mut rng, Some(&a));
+                    if b == a {
+                        b = (&a + BigUint::one()) % &md.m;
+                    }
+                    let bits = md.bits as usize;
+                    // a value that does not fit k bits
+                    let k = 1 + rng.below(bits as u64 - 1) as usize;
+                    let big = {
+                        let lo = BigUint::one() << k;
+                        let v = if a >= lo { a.clone() } else { (&lo + &a) % &md.m };
+                        if v >= lo { v } else { lo }
+                    };
+                    let kb = 1 + rng.below(bits as u64 / 8 - 1) as usize;
+                    let bigb = {
+                        let lo = BigUint::one() << (8 * kb);
+                        let v = if a >= lo { a.clone() } else { (&lo + &a) % &md.m };
+                        if v >= lo { v } else { lo }
+                    };
+                    let lazy_eq = |t: Term| Prog { n_field: 2, n_bits: 0, n_bytes: 0, steps: vec![Step::Add(0, 1), Step::Sub(2, 1)], term: t };
+                    let (prog, x, label): (Prog, Vec<BigUint>, &'static str) = match c.op % 13 {
+                        0 => (Prog::term2(Term::AssertEq(0, 1)), vec![a.clone(), b.clone()], "assert_equal(x!=y)"),
+                        1 => (Prog::term2(Term::AssertNe(0, 1)), vec![a.clone(), a.clone()], "assert_not_equal(x==x)"),
+                        2 => (Prog::term1(Term::AssertEqFixed(0, h(&b))), vec![a.clone()], "assert_equal_to_fixed(x!=c)"),
+                        3 => (Prog::term1(Term::AssertNeFixed(0, h(&a))), vec![a.clone()], "assert_not_equal_to_fixed(x==c)"),
+                        4 => (Prog::term1(Term::AssertNonZero(0)), vec![BigUint::zero()], "assert_non_zero(0)"),
+                        5 => (Prog::binary(Step::Div(0, 1)), vec![a.clone(), BigUint::zero()], "div(x,0)"),
+                        6 => (Prog::unary(Step::Inv(0)), vec![BigUint::zero()], "inv(0)"),
+                        7 => (Prog::term1(Term::ToBits(0, Some(k), true)), vec![big.clone()], "to_le_bits(too-few-bits)"),
+                        8 => (Prog::term1(Term::ToBytes(0, Some(kb))), vec![bigb.clone()], "to_le_bytes(too-few-bytes)"),
+                        // representation independence of the assertions: equal residues reached lazily
+                        9 => (lazy_eq(Term::AssertNe(3, 0)), vec![a.clone(), b.clone()], "assert_not_equal(lazy x+y-y, x)"),
+                        10 => (
+                            Prog { n_field: 1, n_bits: 0, n_bytes: 0, steps: vec![Step::Neg(0), Step::Add(0, 1)], term: Term::AssertNonZero(2) },
+                            vec![a.clone()],
+                            "assert_non_zero(lazy x + -x)",
+                        ),
+                        11 => (
+                            Prog { n_field: 2, n_bits: 0, n_bytes: 0, steps: vec![Step::Sub(0, 1), Step::Sub(1, 0), Step::Add(2, 3), Step::Div(0, 4)], term: Term::Expose(5) },
+                            vec![a.clone(), b.clone()],
+                            "div(x, lazy 0)",
+                        ),
+                        _ => (lazy_eq(Term::AssertEq(3, 1)), vec![a.clone(), b.clone()], "assert_equal(lazy x, y!=x)"),
+                    };
+                    let _ = la;
+                    let v = with_field!(c.field, must_reject(&prog, &x, c.seed, 3))?;
+                    Ok(Verdict::of(v.nontrivial, format!("{}:{}", field_name(c.field), label)).with(v.classes[0].clone()))
+                },
+            );
+            }
+
+            // -------- representation independence ------------------------------------------
+            // A register that is the *output of a normalisation* (from_le_bits, or a
+            // product of constants that crosses the lazy limit) is given its second
+            // well-formed representation (z + m) by a consistent fault plan on the
+            // normalisation region; everything computed from it afterwards must decode
+            // to the same residue-level answers.
+            if want("ff.repr") {
+            p.sub(
+                "ff.repr",
+                "residue inside the two-representation window and the consistent +m plan on a normalisation output was accepted with correct public values (or rejected at the window boundary)",
+                cnt(240, 4800),
+                16,
+                || fcase_strategy(nf),
+                |c| {
+                    let md = model_of(c.field);
+                    let mut rng = SplitMix(c.seed);
+                    let h = |v: &BigUint| hex(&(v % &md.m));
+                    let w = md.two_rep_max();
+                    // residue r of the normalised register
+                    let (r, rl): (BigUint, &'static str) = match c.cls[0] % 8 {
+                        0 => (BigUint::one(), "r=1"),
+                        1 => (BigUint::from(2u8), "r=2"),
+                        2 => (w.clone(), "r=window-max"),
+                        3 => (&w + BigUint::one(), "r=window-max+1"),
+                        4 => (&w - BigUint::one(), "r=window-max-1"),
+                        5 => (BigUint::zero(), "r=0"),
+                        _ => (BigUint::one() + BigUint::from_bytes_le(&rng.bytes(64)) % &w, "r=random-in-window"),
+                    };
+                    let mut r = r % &md.m;
+                    let mut rl = rl;
+                    // how the register is produced: from_le_bits, or a product of two
+                    // constants whose second factor crosses the lazy limit (only residues
+                    // that are multiples of 2^(lb-3))
+                    let span = &w >> (md.lb - 3);
+                    // a third way: the register is an assigned *input*, re-represented by a
+                    // limb transplant (see ops_foreign)
+                    let via_input = c.op % 3 == 1;
+                    let via_bits = !via_input && (c.op % 3 != 0 || span.is_zero());
+                    if !via_bits && !via_input {
+                        r = (BigUint::one() + BigUint::from_bytes_le(&rng.bytes(64)) % &span) << (md.lb - 3);
+                        rl = "r=random-in-window";
+                    }
+                    let (mut prog, mut x, reg): (Prog, Vec<BigUint>, usize) = if via_input {
+                        (Prog { n_field: 2, n_bits: 1, n_bytes: 0, steps: vec![], term: Term::Expose(1) }, vec![r.clone(), BigUint::from(rng.below(2))], 1)
+                    } else if via_bits {
+                        let len = (r.bits().max(1) as usize + rng.below(9) as usize).min(md.bits as usize);
+                        let bits: Vec<BigUint> = (0..len as u64).map(|i| BigUint::from(r.bit(i) as u8)).collect();
+                        (Prog { n_field: 1, n_bits: len, n_bytes: 0, steps: vec![Step::FromBits(0, len)], term: Term::Expose(1) }, bits, 1)
+                    } else {
+                        // x * 2^(lb/2-2) * 2^(lb-3-(lb/2-2)) = x * 2^(lb-3): the second product normalises
+                        let k1 = BigUint::one() << (md.lb / 2 - 2);
+                        let k2 = BigUint::one() << (md.lb - 3 - (md.lb / 2 - 2));
+                        let xin = &r >> (md.lb - 3);
+                        (Prog { n_field: 2, n_bits: 0, n_bytes: 0, steps: vec![Step::MulC(1, h(&k1)), Step::MulC(2, h(&k2))], term: Term::Expose(3) }, vec![xin], 3)
+                    };
+                    // the other field input (register 0): equal to r, different, or related
+                    let other = match c.cls[1] % 4 {
+                        0 => r.clone(),
+                        1 => (&r + BigUint::one()) % &md.m,
+                        2 => (&md.m - &r) % &md.m,
+                        _ => BigUint::from_bytes_le(&rng.bytes(64)) % &md.m,
+                    };
+                    x.insert(0, other.clone());
+                    let (steps_extra, term, tl): (Vec<Step>, Term, &'static str) = match c.cls[2] % 12 {
+                        0 => (vec![], Term::Expose(reg), "expose"),
+                        1 => (vec![], Term::IsZero(reg), "is_zero"),
+                        2 => (vec![], Term::IsEq(reg, 0), "is_equal"),
+                        3 => (vec![], Term::IsEq(0, reg), "is_equal"),
+                        4 => (vec![], Term::IsEqFixed(reg, h(&r)), "is_equal_to_fixed"),
+                        5 => (vec![], Term::ToBits(reg, None, true), "to_le_bits"),
+                        6 => (vec![], Term::ToBytes(reg, None), "to_le_bytes"),
+                        7 => (vec![Step::Mul(reg, 0)], Term::Expose(reg + 1), "mul"),
+                        8 => (vec![Step::Add(reg, 0), Step::Neg(reg + 1)], Term::Expose(reg + 2), "add-neg"),
+                        9 => (vec![Step::Select(0, reg, 0)], Term::Expose(reg + 1), "select"),
+                        10 => (vec![], Term::AssertNe(reg, 0), "assert_not_equal"),
+                        _ => (vec![Step::Inv0(reg)], Term::Expose(reg + 1), "inv0"),
+                    };
+                    if tl == "select" && prog.n_bits == 0 {
+                        return Ok(Verdict::trivial("skipped"));
+                    }
+                    prog.steps.extend(steps_extra);
+                    prog.term = term;
+                    fn run<Fd: EmField>(prog: &Prog, x: &[BigUint], seed: u64) -> Result<(XStats, Vec<String>), Failure> {
+                        let op = FOp::<Fd>::new(prog.clone());
+                        let Some(inst) = op.xreference(x) else { return Ok((XStats::default(), vec!["out-of-domain".into()])) };
+                        let honest = honest_readback(&op, x, &inst)?;
+                        let regs = find_regions::<Fd>(&honest.log);
+                        let mut st = XStats::default();
+                        let mut labels = vec![];
+                        let mut rng = SplitMix(seed);
+                        for (i, reg) in regs.iter().enumerate() {
+                            for t in [1i64, 2] {
+                                if let Some(plan) = plan_norm_plus_m::<Fd>(reg, &honest.values, t) {
+                                    let mut s1 = XStats::default();
+                                    run_plans(&op, x, &inst, vec![(format!("norm#{i}:z{t:+}m-consistent"), plan)], &mut s1)?;
+                                    labels.push(format!("+{t}m:{}", if s1.accepted_correct > 0 { "accepted-correct" } else if s1.rejected > 0 { "rejected" } else { "other" }));
+                                    st.add(&s1);
+                                }
+                            }
+                        }
+                        // the assigned inputs, re-represented consistently (limb transplant)
+                        for e in 0..prog.n_field {
+                            if let Some(plan) = plan_transplant_plus_m::<Fd>(&honest, e * Fd::NB_LIMBS, 1) {
+                                if plan.is_empty() {
+                                    continue;
+                                }
                                 let mut s1 = XStats::default();
-                                run_plans(&op, x, &inst, vec![(format!("norm#{i}:z{t:+}m-consistent"), plan)], &mut s1)?;
-                                labels.push(format!("+{t}m:{}", if s1.accepted_correct > 0 { "accepted-correct" } else if s1.rejected > 0 { "rejected" } else { "other" }));
+                                run_plans(&op, x, &inst, vec![(format!("input#{e}:+1m-transplant-consistent"), plan)], &mut s1)?;
+                                labels.push(format!("input+1m:{}", if s1.accepted_correct > 0 { "accepted-correct" } else if s1.rejected > 0 { "rejected" } else { "other" }));
                                 st.add(&s1);
                             }
                         }
+                        // plus a few of the other structured plans
+                        let plans = structured_plans::<Fd>(&honest, &mut rng, 4).into_iter().filter(|(k, _)| !k.ends_with("consistent")).collect();
+                        run_plans(&op, x, &inst, plans, &mut st)?;
+                        Ok((st, labels))
                     }
-                    // the assigned inputs, re-represented consistently (limb transplant)
-                    for e in 0..prog.n_field {
-                        if let Some(plan) = plan_transplant_plus_m::<Fd>(&honest, e * Fd::NB_LIMBS, 1) {
-                            if plan.is_empty() {
-                                continue;
-                            }
-                            let mut s1 = XStats::default();
-                            run_plans(&op, x, &inst, vec![(format!("input#{e}:+1m-transplant-consistent"), plan)], &mut s1)?;
-                            labels.push(format!("input+1m:{}", if s1.accepted_correct > 0 { "accepted-correct" } else if s1.rejected > 0 { "rejected" } else { "other" }));
-                            st.add(&s1);
-                        }
+                    let (st, labels) = with_field!(c.field, run(&prog, &x, c.seed))?;
+                    let in_window = !r.is_zero() && r <= w;
+                    let nt = if in_window { st.accepted_correct > 0 } else { st.rejected > 0 };
+                    let mut v = Verdict::of(nt, format!("{}:{}:{}", field_name(c.field), tl, rl)).with(format!("term:{tl}")).with(rl).with(if via_input { "via:input-limb-transplant" } else if via_bits { "via:from_le_bits" } else { "via:mul_by_constant-chain" });
+                    for l in labels {
+                        v = v.with(l);
                     }
-                    // plus a few of the other structured plans
-                    let plans = structured_plans::<Fd>(&honest, &mut rng, 4).into_iter().filter(|(k, _)| !k.ends_with("consistent")).collect();
-                    run_plans(&op, x, &inst, plans, &mut st)?;
-                    Ok((st, labels))
-                }
-                let (st, labels) = with_field!(c.field, run(&prog, &x, c.seed))?;
-                let in_window = !r.is_zero() && r <= w;
-                let nt = if in_window { st.accepted_correct > 0 } else { st.rejected > 0 };
-                let mut v = Verdict::of(nt, format!("{}:{}:{}", field_name(c.field), tl, rl)).with(format!("term:{tl}")).with(rl).with(if via_input { "via:input-limb-transplant" } else if via_bits { "via:from_le_bits" } else { "via:mul_by_constant-chain" });
-                for l in labels {
-                    v = v.with(l);
-                }
-                Ok(v)
-            },
-        );
-        }
-
-        // -------- decompositions: regressions (fixed defects) -------------------------------
-        // to_le_bytes(None) / to_le_bits with more bits than the field has used to panic on
-        // fields whose bit length is not a multiple of 8; to_le_chunks with a chunk size not
-        // dividing LOG2_BASE used to ignore nb_chunks (no bound on x).
-        let mut items: Vec<(u8, u8, u8)> = vec![];
-        for f in 0..5u8 {
-            for k in 0..5u8 {
-                for v in 0..4u8 {
-                    items.push((f, k, v));
-                }
+                    Ok(v)
+                },
+            );
             }
-        }
-        if want("ff.decomp.regress") {
-        p.enumerate(
-            "ff.decomp.regress",
-            "field whose bit length is not a multiple of 8, more bits requested than the field has, or a chunk size not dividing LOG2_BASE with nb_chunks given",
-            items,
-            16,
-            false,
-            |&(f, k, v)| {
-                let md = model_of(f);
-                let b = md.base();
-                let val: BigUint = match v {
-                    0 => BigUint::from(5u8),
-                    1 => &b + BigUint::one(),
-                    2 => &md.m - BigUint::one(),
-                    _ => (&md.m - BigUint::one()) >> 1,
-                };
-                let small = [5u32, 6, 31, (1 << 15) - 1][v as usize];
-                let (prog, x, label, how): (Prog, Vec<BigUint>, &'static str, u8) = match k {
-                    0 => (Prog::term1(Term::ToBytes(0, None)), vec![val.clone()], "to_le_bytes(None)", 0),
-                    1 => (Prog::term1(Term::ToBits(0, Some(md.bits as usize + 3), true)), vec![val.clone()], "to_le_bits(NUM_BITS+3)", 0),
-                    2 => (Prog::term1(Term::ToChunks(0, 5, Some(3))), vec![BigUint::from(small)], "to_le_chunks(5 bits, Some(3))", 1),
-                    3 => (Prog::term1(Term::ToChunks(0, 5, Some(3))), vec![(&val % (BigUint::one() << 40)) + (BigUint::one() << 15)], "to_le_chunks(5 bits, Some(3), x >= 2^15)", 2),
-                    _ => (Prog::term1(Term::ToChunks(0, 5, None)), vec![val.clone()], "to_le_chunks(5 bits, None)", 1),
-                };
-                if how == 1 && ecf_known_input(&md, &x[0], k == 2) {
-                    return Ok(Verdict::trivial("excluded-known:enforce_canonical=false"));
-                }
-                fn rb<Fd: EmField>(prog: &Prog, x: &[BigUint], how: u8) -> CaseResult {
-                    let op = FOp::<Fd>::new(prog.clone());
-                    let md = model::<Fd>();
-                    match how {
-                        0 => {
-                            if Fd::VIA_STD {
-                                check_complete_and_s1(&op, x, 11)
-                            } else {
-                                xcheck_complete_and_s1(&op, x, 11)
-                            }
-                        }
-                        1 => xcheck_complete_readback(&op, x),
-                        _ => xcheck_must_reject(&op, x, 3, 3, md.lb, &md.m),
-                    }
-                }
-                let r = with_field!(f, rb(&prog, &x, how));
-                match r {
-                    Ok(_) => Ok(Verdict::nontrivial(format!("{}:{}", field_name(f), label))),
-                    Err(fl) => Err(Failure::new(format!("regression:{}:{}", label, fl.signature), format!("[{}] {}", field_name(f), fl.detail.chars().take(700).collect::<String>()))),
-                }
-            },
-        );
-        }
 
-        // -------- known finding: the enforce_canonical = false path (own sub-check) ----------
-        // `assigned_to_le_bits(.., enforce_canonical = false)` (and `assigned_to_le_chunks` with a
-        // chunk size not dividing LOG2_BASE, which uses it) never normalises `x + 1`: the
-        // honest witness is unsatisfiable when limb 0 of the stored value is all ones
-        // (x = 0 mod 2^LOG2_BASE) or x is the un-normalised result of lazy operations.
-        // All signatures share the prefix `field_chip.enforce_canonical=false:incomplete:`.
-        let mut items: Vec<(u8, u8, u8)> = vec![];
-        for f in 0..5u8 {
-            for k in 0..5u8 {
-                for v in 0..4u8 {
-                    items.push((f, k, v));
-                }
+        };
+        let lane_big = || {
+            // -------- BigUint gadget -------------------------------------------------------
+            if want("big.ops.complete") {
+            p.sub(
+                "big.ops.complete",
+                "boundary operand (class other than random) or an operation with un-normalised intermediate results",
+                cnt(400, 8000),
+                16,
+                bcase_strategy,
+                |c| {
+                    let (op, x, boundary, labels) = big_case(&c.args(), p.quick());
+                    let r = check_complete_and_s1(&op, &x, c.seed)?;
+                    if r.classes.first().map(|s| s.as_str()) == Some("out-of-domain-input-skipped") {
+                        return Ok(Verdict::trivial("skipped-out-of-domain"));
+                    }
+                    let mut v = Verdict::of(boundary, format!("big:{}", big_label(&op))).with(format!("widths:{},{}", op.wa, op.wb));
+                    for l in labels {
+                        v = v.with(format!("operand:{l}"));
+                    }
+                    Ok(v)
+                },
+            );
             }
-        }
-        if want("ff.decomp.known") {
-        p.enumerate(
-            "ff.decomp.known",
-            "stored limb 0 all ones (x = 0 mod B) or un-normalised input on the enforce_canonical = false path",
-            items,
-            16,
-            false,
-            |&(f, k, v)| {
-                let md = model_of(f);
-                let b = md.base();
-                let val: BigUint = match v {
-                    0 => BigUint::from(5u8), // control
-                    1 => b.clone(),
-                    2 => (&b * BigUint::from(3u8) + (&b << md.lb)) % &md.m,
-                    _ => (&md.m - BigUint::one()) >> 1,
-                };
-                let lazy = Prog { n_field: 1, n_bits: 0, n_bytes: 0, steps: vec![Step::Add(0, 0)], term: Term::ToBits(1, None, false) };
-                // with a bit bound, zero (stored as m-1, decomposed as m) is affected as well
-                let val = if k >= 3 { if v == 0 { BigUint::from(5u8) } else { BigUint::zero() } } else { val };
-                let (prog, label, why): (Prog, &'static str, &'static str) = match k {
-                    0 => (Prog::term1(Term::ToBits(0, None, false)), "to_le_bits(enforce_canonical=false)", "to_le_bits:limb0-carry"),
-                    1 => (lazy, "to_le_bits(lazy x+x, enforce_canonical=false)", "to_le_bits:unnormalised-input"),
-                    2 => (Prog::term1(Term::ToChunks(0, 5, None)), "to_le_chunks(5 bits, None)", "to_le_chunks:limb0-carry"),
-                    3 => (Prog::term1(Term::ToChunks(0, 5, Some(3))), "to_le_chunks(5 bits, Some(3))", "to_le_chunks:zero-with-bit-bound"),
-                    _ => (Prog::term1(Term::ToBits(0, Some(9), false)), "to_le_bits(Some(9), enforce_canonical=false)", "to_le_bits:zero-with-bit-bound"),
-                };
-                fn rb<Fd: EmField>(prog: &Prog, x: &[BigUint]) -> CaseResult {
-                    xcheck_complete_readback(&FOp::<Fd>::new(prog.clone()), x)
-                }
-                let r = with_field!(f, rb(&prog, &[val.clone()]));
-                let nt = v == 1 || v == 2 || k == 1 || (k >= 3 && v >= 1);
-                match r {
-                    Ok(_) => Ok(Verdict::of(nt, format!("{}:{}", field_name(f), label))),
-                    Err(fl) => {
-                        let expected = ((k == 0 || k == 2) && (v == 1 || v == 2)) || (k == 1 && v >= 1) || (k >= 3 && v >= 1);
-                        let sig = if fl.signature.contains(":incomplete:reject") && expected { format!("field_chip.enforce_canonical=false:incomplete:{why}") } else { fl.signature.clone() };
-                        Err(Failure::new(sig, format!("[{} {}] {}", field_name(f), label, fl.detail.chars().take(600).collect::<String>())))
-                    }
-                }
-            },
-        );
-        }
-
-        // -------- BigUint gadget -------------------------------------------------------
-        if want("big.ops.complete") {
-        p.sub(
-            "big.ops.complete",
-            "boundary operand (class other than random) or an operation with un-normalised intermediate results",
-            cnt(400, 8000),
-            16,
-            bcase_strategy,
-            |c| {
-                let (op, x, boundary, labels) = big_case(&c.args(), p.quick());
-                let r = check_complete_and_s1(&op, &x, c.seed)?;
-                if r.classes.first().map(|s| s.as_str()) == Some("out-of-domain-input-skipped") {
-                    return Ok(Verdict::trivial("skipped-out-of-domain"));
-                }
-                let mut v = Verdict::of(boundary, format!("big:{}", big_label(&op))).with(format!("widths:{},{}", op.wa, op.wb));
-                for l in labels {
-                    v = v.with(format!("operand:{l}"));
-                }
-                Ok(v)
-            },
-        );
-        }
-        if want("big.ops.s2") {
-        p.sub(
-            "big.ops.s2",
-            "boundary operand or un-normalised intermediate, and a fault rejected or accepted-correct",
-            cnt(160, 3200),
-            16,
-            bcase_strategy,
-            |c| {
-                let (op, x, boundary, _) = big_case(&c.args(), true);
-                let exhaustive = !p.quick() && matches!(op.kind, BKind::Sub | BKind::DivRem | BKind::LowerThan) && op.wa <= 256 && op.wb <= 256;
-                let (s, _) = check_s2(&op, &x, c.seed, if exhaustive { 1 } else { 8 }, exhaustive, true)?;
-                let m = BigUint::one() << 96;
-                let (s2, _) = xcheck_s2(&op, &x, c.seed ^ 0x5eed, 6, false, BIG_LB, &m)?;
-                let tot = s.rejected + s.accepted_correct + s2.rejected + s2.accepted_correct;
-                Ok(Verdict::of(boundary && tot > 0, format!("big:{}", big_label(&op))).with(s2.label()))
-            },
-        );
-        }
-        if want("big.unsat") {
-        p.sub(
-            "big.unsat",
-            "input outside the documented domain (underflow, zero divisor, value wider than declared) and the verdict comes from the constraint system or the run aborts",
-            cnt(96, 1920),
-            16,
-            bcase_strategy,
-            |c| {
-                let mut rng = SplitMix(c.seed);
-                let wa = WIDTHS[c.w[0] as usize % 10];
-                let wb = WIDTHS[c.w[1] as usize % 10];
-                let (a, _) = big_operand(wa, c.cls[0], &mut rng, None);
-                let (b, _) = big_operand(wb, c.cls[1], &mut rng, Some(&a));
-                let (op, x, label): (BigOp, Vec<BigUint>, &'static str) = match c.kind % 5 {
-                    0 | 1 => {
-                        // underflow: x < y
-                        let (mut lo, mut hi, mut wl, mut wh) = (a.clone(), b.clone(), wa, wb);
-                        if lo > hi {
-                            std::mem::swap(&mut lo, &mut hi);
-                            std::mem::swap(&mut wl, &mut wh);
-                        }
-                        if lo == hi {
-                            hi = &hi + BigUint::one();
-                            if hi.bits() > wh as u64 {
-                                hi = &hi - BigUint::one();
-                                if lo.is_zero() {
-                                    return Ok(Verdict::trivial("skipped"));
+            if want("big.ops.s2") {
+            p.sub(
+                "big.ops.s2",
+                "boundary operand or un-normalised intermediate, and a fault rejected or accepted-correct",
+                cnt(160, 3200),
+                16,
+                bcase_strategy,
+                |c| {
+                    let (op, x, boundary, _) = big_case(&c.args(), true);
+                    let exhaustive = !p.quick() && matches!(op.kind, BKind::Sub | BKind::DivRem | BKind::LowerThan) && op.wa <= 256 && op.wb <= 256;
+                    let (s, _) = check_s2(&op, &x, c.seed, if exhaustive { 1 } else { 8 }, exhaustive, true)?;
+                    let m = BigUint::one() << 96;
+                    let (s2, _) = xcheck_s2(&op, &x, c.seed ^ 0x5eed, 6, false, BIG_LB, &m)?;
+                    let tot = s.rejected + s.accepted_correct + s2.rejected + s2.accepted_correct;
+                    Ok(Verdict::of(boundary && tot > 0, format!("big:{}", big_label(&op))).with(s2.label()))
+                },
+            );
+            }
+            if want("big.unsat") {
+            p.sub(
+                "big.unsat",
+                "input outside the documented domain (underflow, zero divisor, value wider than declared) and the verdict comes from the constraint system or the run aborts",
+                cnt(96, 1920),
+                16,
+                bcase_strategy,
+                |c| {
+                    let mut rng = SplitMix(c.seed);
+                    let wa = WIDTHS[c.w[0] as usize % 10];
+                    let wb = WIDTHS[c.w[1] as usize % 10];
+                    let (a, _) = big_operand(wa, c.cls[0], &mut rng, None);
+                    let (b, _) = big_operand(wb, c.cls[1], &mut rng, Some(&a));
+                    let (op, x, label): (BigOp, Vec<BigUint>, &'static str) = match c.kind % 5 {
+                        0 | 1 => {
+                            // underflow: x < y
+                            let (mut lo, mut hi, mut wl, mut wh) = (a.clone(), b.clone(), wa, wb);
+                            if lo > hi {
+                                std::mem::swap(&mut lo, &mut hi);
+                                std::mem::swap(&mut wl, &mut wh);
+                            }
+                            if lo == hi {
+                                hi = &hi + BigUint::one();
+                                if hi.bits() > wh as u64 {
+                                    hi = &hi - BigUint::one();
+                                    if lo.is_zero() {
+                                        return Ok(Verdict::trivial("skipped"));
+                                    }
+                                    lo = &lo - BigUint::one();
                                 }
-                                lo = &lo - BigUint::one();
                             }
+                            (BigOp { kind: BKind::Sub, wa: wl, wb: wh, wc: 1 }, vec![lo, hi], "sub-underflow")
                         }
-                        (BigOp { kind: BKind::Sub, wa: wl, wb: wh, wc: 1 }, vec![lo, hi], "sub-underflow")
+                        2 => (BigOp { kind: BKind::DivRem, wa, wb, wc: 1 }, vec![a.clone(), BigUint::zero()], "div_rem-by-zero"),
+                        3 => (BigOp { kind: BKind::Assign, wa, wb: 1, wc: 1 }, vec![(BigUint::one() << wa) + &a], "assign-wider-than-declared"),
+                        _ => (BigOp { kind: BKind::ModExp(2 + c.kind as u64 % 3), wa: wa.min(256), wb: wb.min(256), wc: 1 }, vec![&a % (BigUint::one() << wa.min(256)), BigUint::zero()], "mod_exp-modulus-zero"),
+                    };
+                    if c.kind % 5 <= 1 && x[0] >= x[1] {
+                        return Ok(Verdict::trivial("skipped"));
                     }
-                    2 => (BigOp { kind: BKind::DivRem, wa, wb, wc: 1 }, vec![a.clone(), BigUint::zero()], "div_rem-by-zero"),
-                    3 => (BigOp { kind: BKind::Assign, wa, wb: 1, wc: 1 }, vec![(BigUint::one() << wa) + &a], "assign-wider-than-declared"),
-                    _ => (BigOp { kind: BKind::ModExp(2 + c.kind as u64 % 3), wa: wa.min(256), wb: wb.min(256), wc: 1 }, vec![&a % (BigUint::one() << wa.min(256)), BigUint::zero()], "mod_exp-modulus-zero"),
-                };
-                if c.kind % 5 <= 1 && x[0] >= x[1] {
-                    return Ok(Verdict::trivial("skipped"));
+                    let m = BigUint::one() << 96;
+                    let v = xcheck_must_reject(&op, &x, c.seed, 3, BIG_LB, &m)?;
+                    Ok(Verdict::of(true, format!("big:{label}")).with(v.classes[0].clone()))
+                },
+            );
+            }
+
+            // F20: mod_exp(x, n, m) for n = 1 (x >= m) and n = 0 (m = 1); controls included
+            let mut f20: Vec<(u64, String, String, u32, u32)> = vec![];
+            for (n, x, m, wa, wb) in [
+                (1u64, "3e8", "7", 64u32, 8u32),
+                (1, "7", "7", 8, 8),
+                (1, "ffffffffffffffffffffffffffffffff", "fffffffffffffffffffffffe", 128, 96),
+                (1, "6", "7", 8, 8), // control: x < m
+                (0, "5", "1", 8, 1),
+                (0, "0", "1", 1, 1),
+                (0, "5", "2", 8, 8), // control: m > 1
+                (3, "3e8", "7", 64, 8), // control
+                (2, "5", "1", 8, 1),  // control: m = 1, n >= 2
+            ] {
+                f20.push((n, x.into(), m.into(), wa, wb));
+            }
+            if want("big.mod_exp.f20") {
+            p.enumerate("big.mod_exp.f20", "exponent 0 or 1 (the branches that skip the reduction) and controls", f20, 8, false, |(n, x, m, wa, wb)| {
+                let op = BigOp { kind: BKind::ModExp(*n), wa: *wa, wb: *wb, wc: 1 };
+                let xs = vec![unhex(x), unhex(m)];
+                let want = xs[0].modpow(&BigUint::from(*n), &xs[1]);
+                let inst = op.xreference(&xs).expect("in domain");
+                let run = op.xrun(&xs, XInst::ReadBack(inst.len()), Default::default());
+                let exposed = run.public.clone();
+                if run.outcome.accepted() && !op.xjudge(&exposed) {
+                    let got = exposed.last().map(f_to_big).unwrap_or_default();
+                    let sig = match n {
+                        1 => "biguint.mod_exp:n=1:returns-unreduced-base".to_string(),
+                        0 => "biguint.mod_exp:n=0:returns-1-for-modulus-1".to_string(),
+                        _ => format!("biguint.mod_exp:n={n}:wrong-result"),
+                    };
+                    return Err(Failure::new(sig, format!("mod_exp(x=0x{x}, n={n}, m=0x{m}): the circuit's own witness is accepted and exposes the result {got} where x^n mod m = {want}")));
                 }
-                let m = BigUint::one() << 96;
-                let v = xcheck_must_reject(&op, &x, c.seed, 3, BIG_LB, &m)?;
-                Ok(Verdict::of(true, format!("big:{label}")).with(v.classes[0].clone()))
-            },
-        );
-        }
-
-        // F20: mod_exp(x, n, m) for n = 1 (x >= m) and n = 0 (m = 1); controls included
-        let mut f20: Vec<(u64, String, String, u32, u32)> = vec![];
-        for (n, x, m, wa, wb) in [
-            (1u64, "3e8", "7", 64u32, 8u32),
-            (1, "7", "7", 8, 8),
-            (1, "ffffffffffffffffffffffffffffffff", "fffffffffffffffffffffffe", 128, 96),
-            (1, "6", "7", 8, 8), // control: x < m
-            (0, "5", "1", 8, 1),
-            (0, "0", "1", 1, 1),
-            (0, "5", "2", 8, 8), // control: m > 1
-            (3, "3e8", "7", 64, 8), // control
-            (2, "5", "1", 8, 1),  // control: m = 1, n >= 2
-        ] {
-            f20.push((n, x.into(), m.into(), wa, wb));
-        }
-        if want("big.mod_exp.f20") {
-        p.enumerate("big.mod_exp.f20", "exponent 0 or 1 (the branches that skip the reduction) and controls", f20, 8, false, |(n, x, m, wa, wb)| {
-            let op = BigOp { kind: BKind::ModExp(*n), wa: *wa, wb: *wb, wc: 1 };
-            let xs = vec![unhex(x), unhex(m)];
-            let want = xs[0].modpow(&BigUint::from(*n), &xs[1]);
-            let inst = op.xreference(&xs).expect("in domain");
-            let run = op.xrun(&xs, XInst::ReadBack(inst.len()), Default::default());
-            let exposed = run.public.clone();
-            if run.outcome.accepted() && !op.xjudge(&exposed) {
-                let got = exposed.last().map(f_to_big).unwrap_or_default();
-                let sig = match n {
-                    1 => "biguint.mod_exp:n=1:returns-unreduced-base".to_string(),
-                    0 => "biguint.mod_exp:n=0:returns-1-for-modulus-1".to_string(),
-                    _ => format!("biguint.mod_exp:n={n}:wrong-result"),
-                };
-                return Err(Failure::new(sig, format!("mod_exp(x=0x{x}, n={n}, m=0x{m}): the circuit's own witness is accepted and exposes the result {got} where x^n mod m = {want}")));
+                // also the plain completeness check
+                check_complete_and_s1(&op, &xs, 1)?;
+                Ok(Verdict::of(*n <= 1, format!("mod_exp:n={n}")))
+            });
             }
-            // also the plain completeness check
-            check_complete_and_s1(&op, &xs, 1)?;
-            Ok(Verdict::of(*n <= 1, format!("mod_exp:n={n}")))
-        });
-        }
 
-        // F21: assign_biguint with nb_bits = 0
-        if want("big.assign.f21") {
-        p.enumerate("big.assign.f21", "declared width 0", vec![0u64, 1, 5, u64::MAX, 1 << 63], 5, false, |v| {
-            let op = BigOp { kind: BKind::Assign, wa: 0, wb: 1, wc: 1 };
-            let xs = vec![BigUint::from(*v)];
-            let run = op.xrun(&xs, XInst::ReadBack(1), Default::default());
-            match (&run.outcome, *v) {
-                (Outcome::Accept, 0) => Ok(Verdict::nontrivial("width0:value0:accepted")),
-                (Outcome::Accept, _) => Err(Failure::new(
-                    "biguint.assign_biguint:nb_bits=0:accepts-nonzero-value",
-                    format!("assign_biguint(value={v}, nb_bits=0) followed by constrain_as_public_input is accepted; exposed limbs {:?} (a 0-bit integer must be 0; `(nb_bits - 1) % 96 + 1` wraps to a 64-bit bound in builds without overflow checks)", run.public),
-                )),
-                (Outcome::Panic(pm), _) if pm.contains("overflow") => Err(Failure::new("biguint.assign_biguint:nb_bits=0:panics-subtract-overflow", format!("value={v}: {pm}"))),
-                (o, 0) => Err(Failure::new("biguint.assign_biguint:nb_bits=0:value0-not-accepted", format!("{o:?}"))),
-                (o, _) => Ok(Verdict::nontrivial(format!("width0:nonzero:{}", o.label()))),
+            // F21: assign_biguint with nb_bits = 0
+            if want("big.assign.f21") {
+            p.enumerate("big.assign.f21", "declared width 0", vec![0u64, 1, 5, u64::MAX, 1 << 63], 5, false, |v| {
+                let op = BigOp { kind: BKind::Assign, wa: 0, wb: 1, wc: 1 };
+                let xs = vec![BigUint::from(*v)];
+                let run = op.xrun(&xs, XInst::ReadBack(1), Default::default());
+                match (&run.outcome, *v) {
+                    (Outcome::Accept, 0) => Ok(Verdict::nontrivial("width0:value0:accepted")),
+                    (Outcome::Accept, _) => Err(Failure::new(
+                        "biguint.assign_biguint:nb_bits=0:accepts-nonzero-value",
+                        format!("assign_biguint(value={v}, nb_bits=0) followed by constrain_as_public_input is accepted; exposed limbs {:?} (a 0-bit integer must be 0; `(nb_bits - 1) % 96 + 1` wraps to a 64-bit bound in builds without overflow checks)", run.public),
+                    )),
+                    (Outcome::Panic(pm), _) if pm.contains("overflow") => Err(Failure::new("biguint.assign_biguint:nb_bits=0:panics-subtract-overflow", format!("value={v}: {pm}"))),
+                    (o, 0) => Err(Failure::new("biguint.assign_biguint:nb_bits=0:value0-not-accepted", format!("{o:?}"))),
+                    (o, _) => Ok(Verdict::nontrivial(format!("width0:nonzero:{}", o.label()))),
+                }
+            });
             }
-        });
+            vp_circ::catalogue_sweep!(p, "catalogue.sweep", vp_circ::ops_foreign::visit_ops, p.tier.pick(3, 1), p.tier.pick(300, 100_000), 16);
+        };
+        // three lanes side by side (each sub-check brings its own streams)
+        if p.is_replay() {
+            lane_ops();
+            lane_chains();
+            lane_big();
+        } else {
+            std::thread::scope(|sc| {
+                sc.spawn(&lane_ops);
+                sc.spawn(&lane_chains);
+                lane_big();
+            });
         }
-        vp_circ::catalogue_sweep!(p, "catalogue.sweep", vp_circ::ops_foreign::visit_ops, p.tier.pick(3, 1), p.tier.pick(300, 100_000), 16);
     });
 }
